@@ -82,6 +82,10 @@ def run_unit(unit, progress):
         progress(i)
         cs = tl.case_seed(unit["seed"], ID, i)
         prog = gen.generate(cs, PROFILE_NS if i % 5 == 3 else PROFILE)
+        if i % 10 == 7:
+            # a task reached twice in one traversal, unblocked in between by a sibling's item.value()
+            prog = gen.revisit_program(random.Random(cs ^ 0x7E715))
+            inc("revisit_programs")
         rnd = random.Random(cs ^ 0xC03)
         try:
             exp_rrt = ref.evaluate(prog)
